@@ -7,7 +7,9 @@ import GT.Lemmas.FSALang
 import GT.Lemmas.FSAMultTotal
 import GT.Lemmas.FSARename
 import GT.Lemmas.FSARec
+import GT.Lemmas.FSARecLang
 import GT.Lemmas.FSARlpTotal
+import GT.Lemmas.FSARlpLang
 
 set_option linter.unusedSectionVars false
 
@@ -285,6 +287,51 @@ theorem recurrent_greatest {s : FSA V L} (hs : s.WF) :
     simp only [SetFSA.recurrent, SetFSA.induced] at this
     rw [hv v, hv w]; exact this
 
+/-- **The language of `recurrent()`.**  With `C` the vertex set of the pruned automaton (by
+`recurrent_greatest` the greatest set without dead ends): from a vertex of `C`, a word is followed in
+the pruned automaton exactly when it is followed in the original one and the walk never leaves `C`
+(`StaysIn`: every visited vertex, both end points included, lies in `C`); the end state is the
+same.  Consequently (third clause) a word is accepted by the pruned automaton iff it is accepted by
+the original from a start vertex in `C` along a walk inside `C` — or it is the empty word, which
+`accepts` admits from any start vertex, pruned or not (see the note on dangling start vertices). -/
+theorem recurrent_language {s : FSA V L} (hs : s.WF) :
+    ∃ s', s.recurrent = .ok s' ∧
+      (∀ v, v ∈ s'.vertices → ∀ w q,
+        s'.follow v w = some q ↔ s.follow v w = some q ∧ StaysIn s (fun x => x ∈ s'.vertices) v w) ∧
+      (∀ v, v ∉ s'.vertices → ∀ w q, s'.follow v w = some q ↔ w = [] ∧ q = v) ∧
+      (∀ w, s'.accepts w = true ↔
+        (w = [] ∧ s.starts ≠ []) ∨
+        ∃ v, v ∈ s.starts ∧ v ∈ s'.vertices ∧ (∃ q, s.follow v w = some q) ∧
+          StaysIn s (fun x => x ∈ s'.vertices) v w) := by
+  obtain ⟨s', e, hw, hst, -, -, hstep⟩ := recurrent_greatest hs
+  have h1 : ∀ v, v ∈ s'.vertices → ∀ w q,
+      s'.follow v w = some q ↔ s.follow v w = some q ∧ StaysIn s (fun x => x ∈ s'.vertices) v w :=
+    fun v hv w q => follow_induced (S := fun x => x ∈ s'.vertices) hstep v hv w q
+  have h2 : ∀ v, v ∉ s'.vertices → ∀ w q, s'.follow v w = some q ↔ w = [] ∧ q = v := by
+    intro v hv w q
+    cases w with
+    | nil => simp [eq_comm]
+    | cons l w =>
+      rw [follow_cons]
+      have : s'.step v l = none := by
+        cases h : s'.step v l with
+        | none => rfl
+        | some u => exact absurd ((hstep v l u).1 h).2.1 hv
+      simp [this]
+  refine ⟨s', e, h1, h2, ?_⟩
+  intro w
+  rw [accepts_iff_follow]
+  simp only [hst]
+  constructor
+  · rintro ⟨v, hv, q, hq⟩
+    by_cases hin : v ∈ s'.vertices
+    · exact Or.inr ⟨v, hv, hin, ⟨q, ((h1 v hin w q).1 hq).1⟩, ((h1 v hin w q).1 hq).2⟩
+    · exact Or.inl ⟨((h2 v hin w q).1 hq).1, List.ne_nil_of_mem hv⟩
+  · rintro (⟨rfl, hne⟩ | ⟨v, hv, hin, ⟨q, hq⟩, hstay⟩)
+    · obtain ⟨v, hv⟩ := List.exists_mem_of_ne_nil _ hne
+      exact ⟨v, hv, v, by simp⟩
+    · exact ⟨v, hv, q, (h1 v hin w q).2 ⟨hq, hstay⟩⟩
+
 /-! ## the shortest-path version -/
 
 /-- **`remove_long_paths(root, edge_ties)` keeps exactly the edges lying on shortest paths from the
@@ -318,6 +365,34 @@ theorem removeLongPaths_total {s : FSA V L} (hs : s.WF) (root : Option V) (ties 
     (hr : root = some r ∨ (root = none ∧ s.starts.head? = some r)) (hv : r ∈ s.vertices) :
     ∃ H dist, s.removeLongPaths root ties = .ok (H, dist) :=
   FSA.removeLongPaths_total hs root ties r hr hv
+
+/-- **The language of `remove_long_paths`.**  Whenever the call returns `(H, dist)` for the root `r`:
+every word followed in `H` from the root is followed in the original automaton to the same state and
+is *geodesic* (its length is the graph distance from the root to its end state); with
+`edge_ties=True` the words followed in `H` from the root are exactly the geodesic words of the
+original; with `edge_ties=False` every vertex reachable from the root is still reached in `H` by
+some word, of geodesic length — `H` is "a" shortest-path version, whichever tree the loop picked. -/
+theorem removeLongPaths_language {s : FSA V L} (hs : s.WF) (root : Option V) (ties : Bool)
+    {H : FSA V L} {dist : Dict V Nat} (h : s.removeLongPaths root ties = .ok (H, dist)) :
+    ∃ r, (root = some r ∨ (root = none ∧ s.starts.head? = some r)) ∧ H.starts = [r] ∧
+      (∀ w q, H.follow r w = some q → s.follow r w = some q ∧ IsDist s r q w.length) ∧
+      (ties = true → ∀ w q, H.follow r w = some q ↔
+        s.follow r w = some q ∧ IsDist s r q w.length) ∧
+      (ties = false → ∀ x n, IsDist s r x n →
+        ∃ w : List L, w.length = n ∧ H.follow r w = some x) := by
+  obtain ⟨-, -, r, hr, hst, -, hedge, htrue, hfalse⟩ := removeLongPaths_shortest hs root ties h
+  have h1 : ∀ w q, H.follow r w = some q → s.follow r w = some q ∧ IsDist s r q w.length := by
+    intro w q hq
+    simpa using follow_geodesic hedge w r 0 q (isDist_root s r) hq
+  refine ⟨r, hr, hst, h1, ?_, ?_⟩
+  · intro ht w q
+    refine ⟨h1 w q, fun ⟨a, b⟩ => ?_⟩
+    exact follow_of_geodesic (htrue ht) w r 0 q (isDist_root s r) a (by simpa using b)
+  · intro hf x n hx
+    refine exists_follow_of_tree hedge ?_ n x hx
+    intro w m hw hne
+    obtain ⟨v, ⟨l, hl⟩, -⟩ := (hfalse hf).1 w m hw hne
+    exact ⟨v, l, hl⟩
 
 /-! ## non-in-place operations
 
